@@ -1,10 +1,355 @@
-(* C07 - Casting to a column type is exact on canonical renderings.  Property theorems only. *)
+(* C07 - Casting to a column type is exact on canonical renderings.
+   Property theorems only, about the definitions of Model/C07.v that the correspondence
+   evaluates ([parse], [column_default], [py_str]); each is closed by [exact] of a lemma from
+   Proofs/C07*.v and followed by Print Assumptions.
+
+   Every theorem is quantified over the six library oracles (ft = float(str), fb =
+   float(bytes), rp = repr(float), jl = orjson.loads, jd = orjson.dumps, sc = str() of a
+   container); what is assumed about them is an explicit premise of the theorem that needs it.
+   [render_Z], [dec_str], [render_date], [render_datetime] are the specification-side
+   renderers (str(int), str(Decimal), str(date), str(datetime)); the correspondence checks them
+   against what CPython prints. *)
 From Coq Require Import List ZArith NArith Bool.
-From Orso Require Import Base.Civil Gen.C08_Tables Model.C08 Gen.C07_Tables Model.C07 Proofs.C07.
+From Orso Require Import Base.Civil Gen.C08_Tables Model.C08 Gen.C07_Tables Model.C07.
+From Orso Require Import Proofs.C07_Int Proofs.C07_Dec Proofs.C07.
 Import ListNotations.
 Open Scope Z_scope.
 
+(* ---- null: for every type of the generated table (and the one without a parser), both
+   entry points ---- *)
 Theorem C07_null :
   forall ft fb rp jl jd sc (t : otype) (k : kwargs), parse ft fb rp jl jd sc t k PNone = ROk PNone.
 Proof. exact parse_none. Qed.
 Print Assumptions C07_null.
+
+(* ---- a value that already has the type comes back equal (timestamps to whole seconds);
+   DECIMAL is covered by C07_decimal_exact / C07_decimal_numeric ---- *)
+Theorem C07_idempotent :
+  forall ft fb rp jl jd sc (k : kwargs),
+  let cast := parse ft fb rp jl jd sc in
+  (forall b, cast T_BOOLEAN k (PBool b) = ROk (PBool b)) /\
+  (forall z, cast T_INTEGER k (PInt z) = ROk (PInt z)) /\
+  (forall f, cast T_DOUBLE k (PFloat f) = ROk (PFloat f)) /\
+  (forall t, kw_length k = None \/ (exists n, kw_length k = Some n /\ zlen t <= n) -> cast T_VARCHAR k (PStr t) = ROk (PStr t)) /\
+  (forall b, kw_length k = None \/ (exists n, kw_length k = Some n /\ zlen b <= n) -> cast T_BLOB k (PBytes b) = ROk (PBytes b)) /\
+  (forall y m d, cast T_DATE k (PDate y m d) = ROk (PDate y m d)) /\
+  (forall y m d h mi s us, cast T_TIMESTAMP k (PDatetime y m d h mi s us) = ROk (PDatetime y m d h mi s 0)) /\
+  (forall l, kw_element k = None -> cast T_ARRAY k (PList l) = ROk (PList l)).
+Proof. exact idempotent_scalars. Qed.
+Print Assumptions C07_idempotent.
+
+Theorem C07_array_idempotent :
+  forall ft fb rp jl jd sc (et : otype) (l : list pyval) (k : kwargs),
+  kw_element k = Some et ->
+  Forall (fun v => parse ft fb rp jl jd sc et nokw v = ROk v) l ->
+  parse ft fb rp jl jd sc T_ARRAY k (PList l) = ROk (PList l).
+Proof. exact array_idempotent. Qed.
+Print Assumptions C07_array_idempotent.
+
+(* ---- INTEGER: whenever str(z) exists (z has at most int_max_str_digits digits - the
+   interpreter's limit, regenerated), casting it, padded with blanks or not, as text or as
+   UTF-8 bytes, gives z: integers of any size within that limit ---- *)
+Theorem C07_integer_roundtrip :
+  forall ft fb rp jl jd sc (k : kwargs) (z : Z) (s ws1 ws2 : list N),
+  py_str rp sc (PInt z) = ROk s -> forallb blank ws1 = true -> forallb blank ws2 = true ->
+  parse ft fb rp jl jd sc T_INTEGER k (PStr (ws1 ++ s ++ ws2)) = ROk (PInt z) /\
+  parse ft fb rp jl jd sc T_INTEGER k (PBytes (utf8_encode (ws1 ++ s ++ ws2))) = ROk (PInt z).
+Proof. exact integer_roundtrip. Qed.
+Print Assumptions C07_integer_roundtrip.
+
+Theorem C07_integer_str_defined :
+  forall rp sc (z : Z), ndig (Z.abs z) <= int_max_str_digits -> py_str rp sc (PInt z) = ROk (render_Z z).
+Proof. exact integer_str_defined. Qed.
+Print Assumptions C07_integer_str_defined.
+
+(* ---- BOOLEAN: decided by the generated BOOLEAN_STRINGS, tested on the upper-cased input
+   as the code tests it (no stripping); str entries for text, bytes entries for bytes ---- *)
+Theorem C07_boolean_table :
+  forall ft fb rp jl jd sc (k : kwargs) (s : list N),
+  (parse ft fb rp jl jd sc T_BOOLEAN k (PStr s) = ROk (PBool true) <-> In (false, py_upper s) boolean_strings) /\
+  (parse ft fb rp jl jd sc T_BOOLEAN k (PBytes s) = ROk (PBool true) <-> In (true, bytes_upper s) boolean_strings).
+Proof. exact boolean_true_iff. Qed.
+Print Assumptions C07_boolean_table.
+
+(* ... text and bytes never raise and always give a bool *)
+Theorem C07_boolean_total :
+  forall ft fb rp jl jd sc (k : kwargs) (s : list N),
+  parse ft fb rp jl jd sc T_BOOLEAN k (PStr s) = ROk (PBool (in_boolean_strings false (py_upper s))) /\
+  parse ft fb rp jl jd sc T_BOOLEAN k (PBytes s) = ROk (PBool (in_boolean_strings true (bytes_upper s))).
+Proof. exact boolean_total. Qed.
+Print Assumptions C07_boolean_total.
+
+(* ... and str(b), as text or bytes, and b itself give b *)
+Theorem C07_boolean_render :
+  forall ft fb rp jl jd sc (k : kwargs) (b : bool),
+  parse ft fb rp jl jd sc T_BOOLEAN k (PBool b) = ROk (PBool b) /\
+  (exists s, py_str rp sc (PBool b) = ROk s /\
+             parse ft fb rp jl jd sc T_BOOLEAN k (PStr s) = ROk (PBool b) /\
+             parse ft fb rp jl jd sc T_BOOLEAN k (PBytes (utf8_encode s)) = ROk (PBool b)).
+Proof. exact boolean_render. Qed.
+Print Assumptions C07_boolean_render.
+
+(* ---- VARCHAR[n] / BLOB[n], n >= 1: the longest prefix of length <= n, from text and
+   from its UTF-8 bytes (VARCHAR), from bytes and from text (BLOB) ---- *)
+Theorem C07_varchar_prefix :
+  forall ft fb rp jl jd sc (n : Z) (t : list N), 1 <= n ->
+  let r := firstn (Z.to_nat n) t in
+  parse ft fb rp jl jd sc T_VARCHAR (mkkw (Some n) None None None) (PStr t) = ROk (PStr r) /\
+  (forallb scalar t = true ->
+   parse ft fb rp jl jd sc T_VARCHAR (mkkw (Some n) None None None) (PBytes (utf8_encode t)) = ROk (PStr r)) /\
+  prefix r t /\ zlen r <= n /\ zlen r = Z.min n (zlen t) /\
+  (forall r', prefix r' t -> zlen r' <= n -> prefix r' r).
+Proof. exact varchar_longest. Qed.
+Print Assumptions C07_varchar_prefix.
+
+Theorem C07_blob_prefix :
+  forall ft fb rp jl jd sc (n : Z) (b : list N), 1 <= n ->
+  let r := firstn (Z.to_nat n) b in
+  parse ft fb rp jl jd sc T_BLOB (mkkw (Some n) None None None) (PBytes b) = ROk (PBytes r) /\
+  (forall t, forallb scalar t = true -> utf8_encode t = b ->
+   parse ft fb rp jl jd sc T_BLOB (mkkw (Some n) None None None) (PStr t) = ROk (PBytes r)) /\
+  prefix r b /\ zlen r <= n /\ zlen r = Z.min n (zlen b) /\
+  (forall r', prefix r' b -> zlen r' <= n -> prefix r' r).
+Proof. exact blob_longest. Qed.
+Print Assumptions C07_blob_prefix.
+
+Theorem C07_text_unbounded :
+  forall ft fb rp jl jd sc (t b : list N),
+  parse ft fb rp jl jd sc T_VARCHAR nokw (PStr t) = ROk (PStr t) /\
+  (forallb scalar t = true -> parse ft fb rp jl jd sc T_VARCHAR nokw (PBytes (utf8_encode t)) = ROk (PStr t)) /\
+  parse ft fb rp jl jd sc T_BLOB nokw (PBytes b) = ROk (PBytes b) /\
+  (forallb scalar t = true -> parse ft fb rp jl jd sc T_BLOB nokw (PStr t) = ROk (PBytes (utf8_encode t))).
+Proof. exact text_unbounded. Qed.
+Print Assumptions C07_text_unbounded.
+
+(* ---- ARRAY: lists, tuples and sets are cast element-wise with the element type's own cast
+   (no keyword arguments), nulls kept, for all lists; JSON text is whatever orjson.loads
+   returns, cast the same way; without an element type the elements are returned as a list ---- *)
+Theorem C07_array_elementwise :
+  forall ft fb rp jl jd sc (et : otype) (x : pyval) (l : list pyval) (l' : pyval) (k : kwargs),
+  kw_element k = Some et -> (x = PList l \/ x = PTuple l \/ x = PSet l) ->
+  parse ft fb rp jl jd sc T_ARRAY k x = ROk l' ->
+  exists r, l' = PList r /\
+            Forall2 (fun v y => parse ft fb rp jl jd sc et nokw v = ROk y /\ (v = PNone -> y = PNone)) l r.
+Proof. exact array_elements_spec. Qed.
+Print Assumptions C07_array_elementwise.
+
+Theorem C07_array_all_elements_cast :
+  forall ft fb rp jl jd sc (et : otype) (x : pyval) (l r : list pyval) (k : kwargs),
+  kw_element k = Some et -> (x = PList l \/ x = PTuple l \/ x = PSet l) ->
+  Forall2 (fun v y => parse ft fb rp jl jd sc et nokw v = ROk y) l r ->
+  parse ft fb rp jl jd sc T_ARRAY k x = ROk (PList r).
+Proof. exact array_all_ok. Qed.
+Print Assumptions C07_array_all_elements_cast.
+
+Theorem C07_array_json :
+  forall ft fb rp jl jd sc (k : kwargs) (yb : bool) (s : list N) (l : list pyval),
+  jl yb s = ROk (PList l) ->
+  parse ft fb rp jl jd sc T_ARRAY k (if yb then PBytes s else PStr s) = parse ft fb rp jl jd sc T_ARRAY k (PList l).
+Proof. exact array_json. Qed.
+Print Assumptions C07_array_json.
+
+(* F-C07-2 (fixed): a tuple or set without an element type comes back as a list *)
+Theorem C07_array_no_element_type :
+  forall ft fb rp jl jd sc (x : pyval) (l : list pyval),
+  (x = PList l \/ x = PTuple l \/ x = PSet l) -> parse ft fb rp jl jd sc T_ARRAY nokw x = ROk (PList l).
+Proof. exact array_no_element. Qed.
+Print Assumptions C07_array_no_element_type.
+
+(* ---- DOUBLE: given that float() inverts repr() (on every float repr can denote), skips
+   blanks and reads ASCII bytes like text, the cast of repr(f) - padded or not, text or
+   bytes - is f, bit for bit ---- *)
+Theorem C07_double_roundtrip :
+  forall (ft fb : list N -> res N) (rp : N -> list N) jl jd sc,
+  (forall f, float_canonical f = true -> ft (rp f) = ROk f) ->
+  (forall ws1 s ws2, forallb blank ws1 = true -> forallb blank ws2 = true -> ft (ws1 ++ s ++ ws2) = ft s) ->
+  (forall b, forallb (fun c => c <? 128)%N b = true -> fb b = ft b) ->
+  (forall f, forallb (fun c => c <? 128)%N (rp f) = true) ->
+  forall (k : kwargs) (f : N) (ws1 ws2 : list N),
+  float_canonical f = true -> forallb blank ws1 = true -> forallb blank ws2 = true ->
+  parse ft fb rp jl jd sc T_DOUBLE k (PStr (ws1 ++ rp f ++ ws2)) = ROk (PFloat f) /\
+  parse ft fb rp jl jd sc T_DOUBLE k (PBytes (utf8_encode (ws1 ++ rp f ++ ws2))) = ROk (PFloat f).
+Proof. exact double_roundtrip. Qed.
+Print Assumptions C07_double_roundtrip.
+
+(* ---- DATE / TIMESTAMP: str(v), as text and as UTF-8 bytes (and isoformat() for
+   timestamps), for every valid date of years 1..9999; timestamps to whole seconds.
+   Rests on the parse_iso round trip proved for C08. ---- *)
+Theorem C07_date_roundtrip :
+  forall ft fb rp jl jd sc (k : kwargs) (y m d : Z), valid_date y m d = true ->
+  py_str rp sc (PDate y m d) = ROk (render_date y m d) /\
+  parse ft fb rp jl jd sc T_DATE k (PStr (render_date y m d)) = ROk (PDate y m d) /\
+  parse ft fb rp jl jd sc T_DATE k (PBytes (utf8_encode (render_date y m d))) = ROk (PDate y m d).
+Proof. exact date_roundtrip. Qed.
+Print Assumptions C07_date_roundtrip.
+
+Theorem C07_timestamp_roundtrip :
+  forall ft fb rp jl jd sc (k : kwargs) (y m d h mi s us : Z),
+  valid_date y m d = true -> valid_time h mi s = true -> 0 <= us < 1000000 ->
+  py_str rp sc (PDatetime y m d h mi s us) = ROk (render_datetime y m d h mi s us) /\
+  parse ft fb rp jl jd sc T_TIMESTAMP k (PStr (render_datetime y m d h mi s us)) = ROk (PDatetime y m d h mi s 0) /\
+  parse ft fb rp jl jd sc T_TIMESTAMP k (PBytes (utf8_encode (render_datetime y m d h mi s us))) = ROk (PDatetime y m d h mi s 0) /\
+  parse ft fb rp jl jd sc T_TIMESTAMP k (PStr (render_seconds y m d h mi s cT (frac_of us) SNone)) = ROk (PDatetime y m d h mi s 0).
+Proof. exact timestamp_roundtrip. Qed.
+Print Assumptions C07_timestamp_roundtrip.
+
+(* ---- DECIMAL(p, s), 1 <= p <= 38, s <= 28 (the regenerated cap).
+   Every decimal d = (-1)^neg * c * 10^e with at most p significant digits and at most s
+   fractional digits (e >= -s), given as a Decimal, as str(d), padded, or as UTF-8 bytes,
+   comes back with the same numerical value: c2 * 10^e2 = c * 10^e (stated scaled by 10^s). *)
+Theorem C07_decimal_numeric :
+  forall ft fb rp jl jd sc (p s : Z) (neg : bool) (c e : Z) (ws1 ws2 : list N),
+  1 <= p <= 38 -> 0 <= s <= safe_scale_cap -> - s <= e <= 1000 -> 0 <= c -> (c = 0 \/ ndig c <= p) ->
+  forallb blank ws1 = true -> forallb blank ws2 = true ->
+  let d := DFin neg c e in
+  exists c2 e2, let r := ROk (PDecimal (DFin neg c2 e2)) in
+    - s <= e2 /\ c2 * 10 ^ (e2 + s) = c * 10 ^ (e + s) /\
+    parse ft fb rp jl jd sc T_DECIMAL (dec_kw p s) (PDecimal d) = r /\
+    parse ft fb rp jl jd sc T_DECIMAL (dec_kw p s) (PStr (ws1 ++ dec_str d ++ ws2)) = r /\
+    parse ft fb rp jl jd sc T_DECIMAL (dec_kw p s) (PBytes (utf8_encode (ws1 ++ dec_str d ++ ws2))) = r.
+Proof. exact decimal_numeric. Qed.
+Print Assumptions C07_decimal_numeric.
+
+(* ... and when d fits DECIMAL(p, s) in the SQL sense (its integer part has at most p - s
+   digits: ndig c + e + s <= p) the result is exactly c * 10^(e+s) at exponent -s. *)
+Theorem C07_decimal_exact :
+  forall ft fb rp jl jd sc (p s : Z) (neg : bool) (c e : Z) (ws1 ws2 : list N),
+  1 <= p <= 38 -> 0 <= s <= safe_scale_cap -> - s <= e <= 1000 -> 0 <= c ->
+  (c = 0 \/ ndig c + (e + s) <= p) ->
+  forallb blank ws1 = true -> forallb blank ws2 = true ->
+  let d := DFin neg c e in
+  let r := ROk (PDecimal (DFin neg (c * 10 ^ (e + s)) (- s))) in
+  py_str rp sc (PDecimal d) = ROk (dec_str d) /\
+  parse ft fb rp jl jd sc T_DECIMAL (dec_kw p s) (PDecimal d) = r /\
+  parse ft fb rp jl jd sc T_DECIMAL (dec_kw p s) (PStr (ws1 ++ dec_str d ++ ws2)) = r /\
+  parse ft fb rp jl jd sc T_DECIMAL (dec_kw p s) (PBytes (utf8_encode (ws1 ++ dec_str d ++ ws2))) = r.
+Proof. exact decimal_exact. Qed.
+Print Assumptions C07_decimal_exact.
+
+(* Full statement of DESIGN.md ("for all d with at most precision significant digits and at
+   most scale <= 28 fractional digits the result is numerically d WITH EXPONENT -scale"):
+   the numerical half is C07_decimal_numeric; the exponent half holds only under the extra
+   premise of C07_decimal_exact and is refuted without it - DECIMAL(5,3) of 12345 comes
+   back as 12345 at exponent 0 (quantize to 0.001 would need eight digits; the code's
+   InvalidOperation fallback returns the unquantized value). *)
+Theorem C07_decimal_exponent_refuted :
+  forall ft fb rp jl jd sc,
+  exists p s c e, 1 <= p <= 38 /\ 0 <= s <= safe_scale_cap /\ - s <= e <= 0 /\ ndig c <= p /\
+    exists c2 e2, parse ft fb rp jl jd sc T_DECIMAL (dec_kw p s) (PStr (dec_str (DFin false c e))) = ROk (PDecimal (DFin false c2 e2))
+                  /\ e2 <> - s.
+Proof. exact decimal_exponent_refuted. Qed.
+Print Assumptions C07_decimal_exponent_refuted.
+
+(* without keyword arguments the cast is DECIMAL(default_precision, default_scale), both regenerated *)
+Theorem C07_decimal_defaults :
+  forall ft fb rp jl jd sc (x : pyval),
+  parse ft fb rp jl jd sc T_DECIMAL nokw x = parse ft fb rp jl jd sc T_DECIMAL (dec_kw default_precision default_scale) x.
+Proof. exact decimal_defaults. Qed.
+Print Assumptions C07_decimal_defaults.
+
+(* ---- class preservation: for every value type, every keyword arguments and every modelled
+   input other than None, a cast that returns returns a value of the class the generated
+   ORSO_TO_PYTHON_MAP gives for the type - otherwise it raised; the elements of a typed
+   array are null or of the element type's class ---- *)
+Theorem C07_class_preserved :
+  forall ft fb rp jl jd sc (t : otype) (k : kwargs) (x r : pyval),
+  In t value_types -> x <> PNone -> parse ft fb rp jl jd sc t k x = ROk r -> Some (class_of r) = python_class t.
+Proof. exact class_preserved. Qed.
+Print Assumptions C07_class_preserved.
+
+Theorem C07_class_elements :
+  forall ft fb rp jl jd sc (et : otype) (k : kwargs) (x r : pyval),
+  In et value_types -> kw_element k = Some et -> parse ft fb rp jl jd sc T_ARRAY k x = ROk r ->
+  r = PNone \/ exists l, r = PList l /\ Forall (fun y => y = PNone \/ Some (class_of y) = python_class et) l.
+Proof. exact class_elements. Qed.
+Print Assumptions C07_class_elements.
+
+(* ---- FlatColumn(default=x).
+   Full statement: the default is cast like OrsoTypes.<t>.parse(x, length=, precision=,
+   scale=, element_type= of the column), for every x.  Proved: a truthy default is cast
+   like parse(x) WITHOUT keyword arguments (any exception becoming ValueError); a falsy one
+   is returned as it is.  What is missing is refuted below (candidate findings F-C07-3/4). *)
+Theorem C07_column_default_partial :
+  forall ft fb rp jl jd sc (t : otype) (x : pyval),
+  (truthy x = true ->
+   column_default ft fb rp jl jd sc t x = match parse ft fb rp jl jd sc t nokw x with ROk r => ROk r | RErr _ => RErr XValue end) /\
+  (truthy x = false -> column_default ft fb rp jl jd sc t x = ROk x).
+Proof. exact column_default_spec. Qed.
+Print Assumptions C07_column_default_partial.
+
+(* F-C07-4: the bytes rendering b"" of the VARCHAR value "" stays bytes as a default *)
+Theorem C07_column_default_falsy_refuted :
+  forall ft fb rp jl jd sc,
+  exists x, column_default ft fb rp jl jd sc T_VARCHAR x = ROk x /\ Some (class_of x) <> python_class T_VARCHAR /\
+            parse ft fb rp jl jd sc T_VARCHAR nokw x = ROk (PStr []).
+Proof. exact column_default_falsy_refuted. Qed.
+Print Assumptions C07_column_default_falsy_refuted.
+
+(* F-C07-3: the default of a VARCHAR[3] column is not cut to 3 characters *)
+Theorem C07_column_default_length_refuted :
+  forall ft fb rp jl jd sc,
+  exists t, column_default ft fb rp jl jd sc T_VARCHAR (PStr t) = ROk (PStr t) /\
+            parse ft fb rp jl jd sc T_VARCHAR (mkkw (Some 3) None None None) (PStr t) <> ROk (PStr t).
+Proof. exact column_default_length_refuted. Qed.
+Print Assumptions C07_column_default_length_refuted.
+
+(* ---- non-vacuity ---- *)
+(* INTEGER: a negative number, padded *)
+Example C07_integer_nonvacuous :
+  forall ft fb rp jl jd sc,
+  py_str rp sc (PInt (-1203)) = ROk [45; 49; 50; 48; 51]%N /\ forallb blank [32; 9]%N = true /\
+  parse ft fb rp jl jd sc T_INTEGER nokw (PStr ([32; 9] ++ [45; 49; 50; 48; 51] ++ [10])%N) = ROk (PInt (-1203)).
+Proof. intros. vm_compute. repeat split; reflexivity. Qed.
+
+(* DECIMAL(5,2) of -12.3: fits; exponent -2 *)
+Example C07_decimal_nonvacuous :
+  forall ft fb rp jl jd sc,
+  1 <= 5 <= 38 /\ 0 <= 2 <= safe_scale_cap /\ ndig 123 + (-1 + 2) <= 5 /\
+  dec_str (DFin true 123 (-1)) = [45; 49; 50; 46; 51]%N /\
+  parse ft fb rp jl jd sc T_DECIMAL (dec_kw 5 2) (PStr (dec_str (DFin true 123 (-1)))) = ROk (PDecimal (DFin true 1230 (-2))) /\
+  (* scientific rendering, rounding (not covered by the theorems, evaluated by the model) *)
+  dec_str (DFin false 1 (-7)) = [49; 69; 45; 55]%N /\
+  parse ft fb rp jl jd sc T_DECIMAL (dec_kw 10 8) (PStr (dec_str (DFin false 1 (-7)))) = ROk (PDecimal (DFin false 10 (-8))) /\
+  parse ft fb rp jl jd sc T_DECIMAL (dec_kw 1 0) (PStr [50; 46; 53]%N) = ROk (PDecimal (DFin false 2 0)).
+Proof. intros. vm_compute. repeat split; try reflexivity; discriminate. Qed.
+
+(* DOUBLE: the hypotheses of C07_double_roundtrip are satisfiable (a toy float/repr pair) *)
+Example C07_double_hypotheses_satisfiable :
+  (forall f, float_canonical f = true -> toy_float (toy_repr f) = ROk f) /\
+  (forall ws1 s ws2, forallb blank ws1 = true -> forallb blank ws2 = true -> toy_float (ws1 ++ s ++ ws2) = toy_float s) /\
+  (forall b, forallb (fun c => c <? 128)%N b = true -> toy_float b = toy_float b) /\
+  (forall f, forallb (fun c => c <? 128)%N (toy_repr f) = true).
+Proof. exact double_hypotheses_satisfiable. Qed.
+
+Example C07_float_canonical_examples :
+  float_canonical 4609434218613702656 = true /\ float_canonical 9218868437227405312 = true /\
+  float_canonical 9221120237041090560 = true /\ float_canonical 9221120237041090561 = false.
+Proof. vm_compute. repeat split; reflexivity. Qed.
+
+(* BOOLEAN: the table is not empty and decides both ways; no stripping *)
+Example C07_boolean_nonvacuous :
+  forall ft fb rp jl jd sc,
+  In (false, py_upper [121; 101; 383]%N) boolean_strings /\                     (* "yeſ".upper() = "YES" *)
+  parse ft fb rp jl jd sc T_BOOLEAN nokw (PStr [116; 114; 117; 101]%N) = ROk (PBool true) /\
+  parse ft fb rp jl jd sc T_BOOLEAN nokw (PStr [32; 116; 114; 117; 101]%N) = ROk (PBool false) /\
+  parse ft fb rp jl jd sc T_BOOLEAN nokw (PBytes [111; 110]%N) = ROk (PBool true) /\
+  parse ft fb rp jl jd sc T_BOOLEAN nokw (PInt 2) = ROk (PBool false).
+Proof. intros. vm_compute. repeat split; try reflexivity. tauto. Qed.
+
+(* VARCHAR[2] over multi-byte text: characters, not bytes, are counted *)
+Example C07_varchar_nonvacuous :
+  forall ft fb rp jl jd sc,
+  forallb scalar [233; 8364; 128512]%N = true /\
+  parse ft fb rp jl jd sc T_VARCHAR (mkkw (Some 2) None None None) (PBytes (utf8_encode [233; 8364; 128512]%N)) = ROk (PStr [233; 8364]%N) /\
+  parse ft fb rp jl jd sc T_BLOB (mkkw (Some 2) None None None) (PStr [233; 8364; 128512]%N) = ROk (PBytes [195; 169]%N).
+Proof. intros. vm_compute. repeat split; reflexivity. Qed.
+
+(* ARRAY<INTEGER> of a tuple with a null; DATE / TIMESTAMP renderings *)
+Example C07_array_date_nonvacuous :
+  forall ft fb rp jl jd sc,
+  parse ft fb rp jl jd sc T_ARRAY (mkkw None None None (Some T_INTEGER)) (PTuple [PStr [55]%N; PNone; PBool true])
+    = ROk (PList [PInt 7; PNone; PInt 1]) /\
+  valid_date 2024 2 29 = true /\ valid_time 23 59 58 = true /\
+  parse ft fb rp jl jd sc T_TIMESTAMP nokw (PStr (render_datetime 2024 2 29 23 59 58 250000)) = ROk (PDatetime 2024 2 29 23 59 58 0) /\
+  parse ft fb rp jl jd sc T_DATE nokw (PDatetime 2024 2 29 23 59 58 250000) = ROk (PDate 2024 2 29).
+Proof. intros. vm_compute. repeat split; reflexivity. Qed.
